@@ -24,11 +24,11 @@ CFG = dict(
                 "injected there - complete per history - and the surviving objects are re-read and destroyed."),
     level_note="histories are seeded samples; fault points are enumerated completely per history (construction points capped at ~200 per history)",
     technique="ledger allocator + tracked element type + shadow model over seeded operation histories with exhaustive per-history fault injection, ASan+LSan+UBSan",
-    rule=("one case per history; evaluations = per-operation invariant checks over all runs of the history (fault-free + one per "
+    rule=("one case per (first, second) operation kind of the exhaustive triples (21 third kinds inside) and one case per seeded history; evaluations = per-operation invariant checks over all runs of the history (fault-free + one per "
           "fault point); distinct_nontrivial = distinct operation sequences (hash of the generated op list, measured), each of "
           "which executed at least 3 generated operations."),
     exhaustive={"quick": False, "thorough": False},
-    exhaustive_domain={"quick": "150 histories x 25 (image type, allocator flavour, language mode) configurations; every allocation point of each history",
+    exhaustive_domain={"quick": "every ordered triple of the 21 operation kinds after a fixed prelude (complete over kinds^3, fixed parameters) + 150 seeded histories, x 25 (image type, allocator flavour, language mode) configurations; every allocation point of each seeded history",
                        "thorough": "2000 histories x 25 configurations, up to 40 operations"},
     types=["image<rgb8_pixel_t,false,A>", "image<rgb8_pixel_t,true,A>", "image<gray16_pixel_t,false,A>", "bit_aligned_image3_type<1,2,3,rgb_layout_t,A>",
            "image<telem,false,A>", "any_image<rgb8, gray16, rgb8 planar over the ledger allocator>", "A in {led::alloc always-equal, propagating, sticky; std::pmr::polymorphic_allocator}"],
@@ -39,6 +39,6 @@ CFG = dict(
     tus=[tu(_name(i, f, s), SRC, "asan", std=s, extra=NONULL + ["-DIMG=%d" % i, "-DFLAV=%d" % f]) for (i, f, s) in CONF]
         + [tu("c10_any_image", "harness/c10_any_image.cpp", "asan", extra=NONULL)],
     runs=[run(_name(i, f, s), shards={"quick": 1, "thorough": 4}, leaks=True,
-              min_cases={"quick": 150, "thorough": 2000}) for (i, f, s) in CONF]
+              min_cases={"quick": 591, "thorough": 2441}) for (i, f, s) in CONF]
         + [run("c10_any_image", shards={"quick": 2, "thorough": 8}, leaks=True, min_cases={"quick": 400, "thorough": 4000})],
 )
